@@ -36,6 +36,10 @@ type CacheScn struct {
 	MaxDir  int         `json:"max_dir,omitempty"`
 	Ops     []CacheOp   `json:"ops,omitempty"`
 	Threads [][]CacheOp `json:"threads,omitempty"` // concurrent variant
+	// concurrent variant with expiry: Pre is applied sequentially first, then PreSleepNs pass on the fake
+	// clock (chosen beyond the TTL so that the clients meet expired entries), then the clients start
+	Pre        []CacheOp `json:"pre,omitempty"`
+	PreSleepNs int64     `json:"pre_sleep_ns,omitempty"`
 	Sched   SchedCfg    `json:"sched"`
 }
 
@@ -417,6 +421,26 @@ type cacheOut struct {
 
 func runCacheConcurrent(o *Outcome, sc *CacheScn, d *cacheDriver, m *cModel, attr bool) {
 	var ops []porcupine.Operation
+	start := simrt.Now()
+	for _, op := range sc.Pre {
+		d.apply(op, o)
+		modelApply(m, op, simrt.Now()-start, attr)
+	}
+	if sc.PreSleepNs > 0 {
+		dt := time.Duration(sc.PreSleepNs)
+		for again := true; again; {
+			again = false
+			for _, e := range m.entries {
+				if e.expire == simrt.Now()-start+dt {
+					dt++
+					again = true
+				}
+			}
+		}
+		simrt.Sleep(dt)
+	}
+	// no time passes while the clients run: one instant for the whole concurrent phase
+	phase := simrt.Now() - start
 	done := make(chan []porcupine.Operation, len(sc.Threads))
 	for ti, th := range sc.Threads {
 		ti, th := ti, th
@@ -426,7 +450,7 @@ func runCacheConcurrent(o *Outcome, sc *CacheScn, d *cacheDriver, m *cModel, att
 				call := simrt.Stamp()
 				v, neg, hit := d.apply(op, o)
 				ret := simrt.Stamp()
-				mine = append(mine, porcupine.Operation{ClientId: ti, Input: cacheIn{op, 0}, Call: call, Output: cacheOut{v, neg, hit}, Return: ret})
+				mine = append(mine, porcupine.Operation{ClientId: ti, Input: cacheIn{op, phase}, Call: call, Output: cacheOut{v, neg, hit}, Return: ret})
 			}
 			simrt.Send("cache.done", done, mine)
 		})
@@ -444,7 +468,7 @@ func runCacheConcurrent(o *Outcome, sc *CacheScn, d *cacheDriver, m *cModel, att
 		Step: func(state, in, out any) (bool, any) {
 			st := state.(*cModel).clone()
 			i, ou := in.(cacheIn), out.(cacheOut)
-			v, neg, hit := modelApply(st, i.op, 0, attr)
+			v, neg, hit := modelApply(st, i.op, i.now, attr)
 			if i.op.Op == "get" {
 				if hit != ou.hit || (hit && (neg != ou.neg || (!neg && v != ou.val))) {
 					return false, state
@@ -605,6 +629,27 @@ func genC21(r *simrt.Rand, tier string) any {
 			}
 			sc.Threads = append(sc.Threads, th)
 		}
+		if r.Pct(50) {
+			// the clients meet entries that have just expired: a look-up that removes an expired entry races
+			// with a Put that refreshes it
+			sc.TTLNs = 1e9
+			sc.NegTTL = 1e9
+			for i, n := 0, 1+r.Int(4); i < n; i++ {
+				val++
+				sc.Pre = append(sc.Pre, CacheOp{Op: "put", Key: r.Int(4), Val: val, N: 1 + r.Int(3)})
+			}
+			sc.PreSleepNs = 2e9 + int64(r.Int(1000))
+			for ti := range sc.Threads {
+				for j := range sc.Threads[ti] {
+					if r.Pct(40) {
+						sc.Threads[ti][j] = CacheOp{Op: "get", Key: sc.Pre[r.Int(len(sc.Pre))].Key}
+					} else if r.Pct(40) {
+						val++
+						sc.Threads[ti][j] = CacheOp{Op: "put", Key: sc.Pre[r.Int(len(sc.Pre))].Key, Val: val, N: 1 + r.Int(3)}
+					}
+				}
+			}
+		}
 		return sc
 	}
 	n := 8 + r.Int(50)
@@ -650,7 +695,7 @@ func shrinkCache(scAny any) []any {
 
 func init() {
 	Register(&Prop{ID: "C21", Level: "exploration", Race: true,
-		Rule: "one case = a sequence of 8-58 Put/PutNegative/Get/Invalidate/InvalidateNegativeInDir/Resize/UpdateTTL/Clear/ConfigureNegativeCaching calls and fake-clock advances (never exactly on an expiry instant) on AttrCache or DirCache with capacity 1-8 and TTL 1 ns..1 h over a 3-level key alphabet (75%), or 2-3 concurrent clients with <= 12 operations under the seeded scheduler (25%, also built with -race); oracle sequential: operation-by-operation equality with a bounded TTL-LRU reference (hit/miss, negative flag, value of the most recent Put, copy isolation by mutating stored and returned values), size <= capacity after every call, negative entries only while enabled and removed exactly for direct children; oracle concurrent: porcupine linearizability against the same reference (timeouts counted, never reported); non-trivial = >=3 sequential operations or >=4 concurrent; distinct by event digest",
+		Rule: "one case = a sequence of 8-58 Put/PutNegative/Get/Invalidate/InvalidateNegativeInDir/Resize/UpdateTTL/Clear/ConfigureNegativeCaching calls and fake-clock advances (never exactly on an expiry instant) on AttrCache or DirCache with capacity 1-8 and TTL 1 ns..1 h over a 3-level key alphabet (75%), or 2-3 concurrent clients with <= 12 operations under the seeded scheduler (25%, also built with -race; in half of those 1-4 entries are stored first and the clock is advanced beyond the TTL, so that look-ups that remove an expired entry race with Puts that refresh it); oracle sequential: operation-by-operation equality with a bounded TTL-LRU reference (hit/miss, negative flag, value of the most recent Put, copy isolation by mutating stored and returned values), size <= capacity after every call, negative entries only while enabled and removed exactly for direct children; oracle concurrent: porcupine linearizability against the same reference (timeouts counted, never reported); non-trivial = >=3 sequential operations or >=4 concurrent; distinct by event digest",
 		Gen:  genC21, New: func() any { return &CacheScn{} }, Run: runCache, Shrink: shrinkCache,
 		Real:    []string{"AttrCache (all exported methods)", "DirCache (all exported methods)"},
 		Stubbed: []string{"clock (synctest fake clock)", "sync.RWMutex (simrt equivalents)", "goroutine scheduling (simrt driver)"}})
